@@ -289,6 +289,32 @@ func (p *Prog) externalMayCallBack(callee *ssa.Function, cc *ssa.CallCommon, fre
 				return "external " + callee.Name() + " calls back " + FuncName(fn)
 			}
 		}
+		if pp := funcPkgPath(callee); regexpEnginePkgs[pp] {
+			// A regular-expression engine calls back into the module only through an interface value
+			// it is handed (io.RuneReader): every module implementation of that interface must be
+			// script-free. Its own data (the compiled program, options) is not module code.
+			if iface, ok := a.Type().Underlying().(*types.Interface); ok {
+				if why := p.moduleImplsMayRunScript(iface, free); why != "" {
+					return "external " + pp + "." + callee.Name() + " calls back " + why
+				}
+				continue
+			}
+			t := a.Type()
+			for i := 0; i < 3; i++ {
+				if NamedOf(t) != nil {
+					break
+				}
+				switch u := t.Underlying().(type) {
+				case *types.Pointer:
+					t = u.Elem()
+				case *types.Slice:
+					t = u.Elem()
+				}
+			}
+			if n := NamedOf(t); n != nil && n.Obj().Pkg() != nil && regexpEnginePkgs[n.Obj().Pkg().Path()] {
+				continue
+			}
+		}
 		if callbackCapable(a.Type(), 0) {
 			// a few heavily used, well-known pure consumers
 			if pp := funcPkgPath(callee); pp != "" {
@@ -303,6 +329,31 @@ func (p *Prog) externalMayCallBack(callee *ssa.Function, cc *ssa.CallCommon, fre
 				name = callee.Pkg.Pkg.Path() + "." + name
 			}
 			return "external " + name + " receives a callback-capable value"
+		}
+	}
+	return ""
+}
+
+// regexpEnginePkgs: the two regular-expression engines goja drives (Go's regexp and dlclark/regexp2).
+var regexpEnginePkgs = map[string]bool{"regexp": true, "github.com/dlclark/regexp2/v2": true, "github.com/dlclark/regexp2/v2/syntax": true}
+
+// moduleImplsMayRunScript: some module type implementing iface has a method of iface that is not
+// script-free under the current assumption; returns its name.
+func (p *Prog) moduleImplsMayRunScript(iface *types.Interface, free map[*ssa.Function]bool) string {
+	names := map[string]bool{}
+	for i := 0; i < iface.NumMethods(); i++ {
+		names[iface.Method(i).Name()] = true
+	}
+	for _, f := range p.Funcs {
+		r := f.Signature.Recv()
+		if r == nil || !names[f.Name()] || f.Parent() != nil {
+			continue
+		}
+		if !types.Implements(r.Type(), iface) {
+			continue
+		}
+		if v, known := free[f]; known && !v {
+			return FuncName(f)
 		}
 	}
 	return ""
